@@ -1181,6 +1181,37 @@ def history_search(ctx):
         except Exception as ex:  # noqa: BLE001
             ok = False
             fail(ctx, "circuit:raises", f"{type(ex).__name__}: {ex}", src, broken=["C16_search_history"])
+    # (c') the `form` of a SymbolicHamiltonian is reassigned after the object has been used
+    #      (matrix, terms, circuit, a Trotter evolution): everything afterwards follows the new form
+    for rep in range(4):
+        n = rng.randint(2, 3)
+        ms, const = rand_poly(rng, n, rng.randint(2, 5), commuting=False, integer=False)
+        ms2, const2 = rand_poly(rng, n, rng.randint(2, 5), commuting=None, integer=False)
+        ms2 = [m for m in ms2 if m[1] != ((n - 1, "Z"),)] + [(0.6, ((n - 1, "Z"),))]  # keeps the register size
+        dt = rng.choice([0.1, 0.25, -0.2])
+        use = ["h.matrix", f"h.circuit({dt})", "h.terms", f"h.circuit({dt}); h.exp(0.3)",
+               f"models.StateEvolution(h, 0.1)(final_time=0.3, initial_state=np.eye({2**n})[0].astype(complex))"][(rep + rng.randint(0, 4)) % 5]
+        H2 = poly_matrix(ms2, const2, n)
+        src = PRE + (f"h = SymbolicHamiltonian({poly_src(ms, const)}, nqubits={n})\n{use}\n"
+                     f"new = SymbolicHamiltonian({poly_src(ms2, const2)}, nqubits={n})\nh.form = new.form\n"
+                     f"H2 = {arr_src(H2)}\n"
+                     f"d = max(np.abs(h.circuit({dt}).unitary() - new.circuit({dt}).unitary()).max(), np.abs(np.asarray(h.matrix) - H2).max(),\n"
+                     f"        np.abs(np.asarray(h.exp(0.3)) - sla.expm(-0.3j * H2)).max())\n"
+                     f"psi = np.eye({2**n})[1].astype(complex)\n"
+                     "d = max(d, np.abs(models.StateEvolution(h, 0.1)(final_time=0.2, initial_state=psi.copy()) - models.StateEvolution(new, 0.1)(final_time=0.2, initial_state=psi.copy())).max())\n"
+                     "print(d)\nsys.exit(0 if d < 1e-9 else 1)\n")
+        ctx.case(("form-history", rep, use))
+        ctx.stat("history:form-reassigned")
+        try:
+            env = {}
+            exec(src.rsplit("print(d)", 1)[0], env)  # noqa: S102 - own generated text, identical to the replay
+            if not env["d"] < 1e-9:
+                ok = False
+                fail(ctx, "circuit:stale-after-form", f"SymbolicHamiltonian used ({use}), then `form` reassigned: circuit / matrix / exp / Trotter evolution deviate from the new form by {env['d']:.3e}",
+                     src, broken=["C16_search_history"])
+        except Exception as ex:  # noqa: BLE001
+            ok = False
+            fail(ctx, "circuit:raises", f"form reassignment history: {type(ex).__name__}: {ex}", src, broken=["C16_search_history"])
     for solver, first0 in (("exp", True), ("exp", False), ("rk4", True), ("rk4", False), ("trotter", True), ("trotter", False)):
         n = 2
         # the Trotter variant uses commuting terms, so that every step is exact and the times at
